@@ -356,6 +356,7 @@ def run(chk: Check) -> None:
     run_import_diagnosis_has_cached_standins(chk, ix)
     run_lookup_memo_independent_of_caller(chk, ix)
     run_added_packages_include_namespace_ones(chk, ix)
+    run_hash_match_keeps_file_kind(chk, ix)
     # the cached interface must come back as it was written (bound from C11: R11.11, None is encoded exactly)
     from ..resolve import Resolver
     from .c11 import run_none_encoding
@@ -837,3 +838,23 @@ def run_added_packages_include_namespace_ones(chk: Check, ix) -> None:
         raise AnalysisError(f"exist_added_packages: no `return True` under a base-name test on __init__ found ({sorted(shapes)})")
     else:
         r21.violation(key, f.loc(rets[0]) if rets else f.loc(), "only the `__init__.py[i]` shape returns True: for a namespace package (find_module returns the directory) the importers are not invalidated; `from ns import mod` cached while `ns` was invisible keeps reporting 'Module \"ns\" has no attribute \"mod\"' on every later run")
+
+
+def run_hash_match_keeps_file_kind(chk: Check, ix) -> None:
+    """R02.22: a record is re-attached to a different path only if that path is checked the same way."""
+    from ..cfg import CFG
+    r22 = chk.rule("R02.22", "validate_meta accepts a record whose path or mtime changed when the file's hash still matches and rewrites `meta.path = path`. The hash covers the text only; the same text is checked differently as a stub (function bodies are not checked, `...` bodies are fine), so the statement that re-attaches the record to a new path is reached only through a rejecting test that compares the stub-ness of the two paths (`path.endswith('.pyi') != meta.path.endswith('.pyi')`)", floor=1)
+    vm = ix.func("mypy.build.validate_meta")
+    g = CFG(vm.node)
+    reattach = [nd for nd in g.nodes if nd.kind == "stmt" and isinstance(nd.stmt, ast.Assign) and norm(nd.stmt.targets[0]) == "meta.path"]
+    if not reattach:
+        raise AnalysisError("validate_meta: no `meta.path = ...` re-attachment found")
+    kind_ifs = [i_ for i_ in ast.walk(vm.node) if isinstance(i_, ast.If) and norm(i_.test).count(".endswith('.pyi')") >= 2 and "meta.path" in norm(i_.test) and any(isinstance(x, ast.NotEq) for c in ast.walk(i_.test) if isinstance(c, ast.Compare) for x in c.ops) and any(isinstance(st, ast.Return) and isinstance(st.value, ast.Constant) and st.value.value is None for st in i_.body)]
+    kind_tests = [nd for nd in g.nodes if nd.kind == "test" and nd.stmt in kind_ifs]
+    for nd in reattach:
+        key = f"validate_meta: `{norm(nd.stmt)}` only between files of the same kind (source / stub)"
+        ok = any(g.must_pass(g.entry, [nd], [t], labels_excluded=("exc",)) for t in kind_tests)
+        if ok:
+            r22.ok(key, vm.loc(nd.stmt))
+        else:
+            r22.violation(key, vm.loc(nd.stmt), "the record is moved to the new path on a hash match alone: when `a.pyi` with the text of `a.py` appears (or disappears), the warm run replays the other file kind's diagnostics (`a.py:1: error: Missing return statement [empty-body]` although the stub is what is imported)")
